@@ -42,6 +42,7 @@ Private attributes touched: `_TcpConnection__readBuffer`, `__writeBuffer`, `__la
 import errno
 import hashlib
 import importlib
+import io
 import json
 import os
 import struct
@@ -233,9 +234,18 @@ class Table(object):
         return i
 
     def real_dec(self, payload):
-        """the real decode path of __processParseMessage; (ok, id)"""
+        """Is `payload` (exactly the bytes named by a length field) a valid frame payload, and of which message?
+        The property's reading of "valid": the bytes are EXACTLY one zlib stream holding EXACTLY one pickle —
+        zlib.decompress()/pickle.loads() would silently ignore trailing bytes (D83).  -> (ok, id)"""
         try:
-            v = self.pk.loads(zlib.decompress(payload))
+            d = zlib.decompressobj()
+            raw = d.decompress(payload)
+            if not d.eof or d.unused_data:
+                return False, None
+            f = io.BytesIO(raw)
+            v = self.pk.load(f)
+            if f.tell() != len(raw):
+                return False, None
         except BaseException:
             return False, None
         return True, self.vid(v)
@@ -609,13 +619,24 @@ def gen_reader_random(env, rng, n):
 
 
 CORRUPTIONS = ["neg1", "neg_small", "neg_min", "neg_len", "neg_exact", "huge", "max", "zero", "shorter",
-               "longer", "longer_many", "flip", "garbage", "zlib_bad_pickle", "none_msg", "trunc_tail"]
+               "longer", "longer_many", "flip", "garbage", "zlib_bad_pickle", "none_msg", "trunc_tail",
+               # D83: the length field raised by k — by one byte, by exactly the next frame, by the next two frames
+               "longer_one", "swallow_next", "swallow_two", "pickle_trailing"]
 
 
-def corrupt_frame(rng, table, frame, how):
-    """-> bytes replacing the frame.  Nothing else in the stream is changed."""
+def corrupt_frame(rng, table, frame, how, following=()):
+    """-> bytes replacing the frame.  Nothing else in the stream is changed (`following`: the frames behind it)."""
     p = frame[4:]
     n = len(p)
+    if how == "longer_one":
+        return struct.pack("<i", n + 1) + p
+    if how in ("swallow_next", "swallow_two"):
+        k = sum(len(f) for f in following[:1 if how == "swallow_next" else 2])
+        return struct.pack("<i", n + (k or 1)) + p
+    if how == "pickle_trailing":
+        # a well-formed zlib stream whose content is a pickle followed by more bytes
+        g = zlib.compress(zlib.decompress(p) + rng.choice([b"\x00", b"junk", zlib.decompress(p)]), 3)
+        return struct.pack("<i", len(g)) + g
     if how == "neg1":
         return struct.pack("<i", -1) + p
     if how == "neg_small":
@@ -680,7 +701,9 @@ def gen_corrupt(env, rng, n, hows=None):
         ids = [t.vid(gen_value(rng, rng.random() < 0.1)) for _ in range(k)]
         bad_i = rng.randrange(k)
         frames = [t.frame(i) for i in ids]
-        bad = corrupt_frame(rng, t, frames[bad_i], how)
+        if how in ("swallow_next", "swallow_two", "longer_one") and k > 1:
+            bad_i = rng.randrange(k - 1)                 # something must follow
+        bad = corrupt_frame(rng, t, frames[bad_i], how, frames[bad_i + 1:])
         pos = sum(len(f) for f in frames[:bad_i])
         stream = b"".join(frames[:bad_i]) + bad + b"".join(frames[bad_i + 1:])
         cls, info = classify_bad(t, stream, pos)
@@ -772,7 +795,7 @@ def gen_mixed(env, rng, n):
         corrupted = False
         if frames and rng.random() < 0.3:
             j = rng.randrange(len(frames))
-            frames[j] = corrupt_frame(rng, t, frames[j], rng.choice(CORRUPTIONS))
+            frames[j] = corrupt_frame(rng, t, frames[j], rng.choice(CORRUPTIONS), frames[j + 1:])
             corrupted = True
         stream = b"".join(frames)
         for i in peer_ids:
